@@ -1,10 +1,12 @@
 (* C10 -- repeated occurrences of a singular field merge as protobuf prescribes.
    Statements only; proofs in Proofs/Merge.v: what parse_member and merge_messages (Impl/Unpack.v, the model
    of the repaired C code: see the "fix:" commits on merge_messages) do, rule by rule.
-   Not proved: that merging never fails on parser-produced messages (a totality statement over two
-   well-shaped messages); the check's oracle against the reference parser covers it on generated input. *)
+   Totality (Proofs/MergeSafe.v with Proofs/UnpackSafe.v): merging two well-shaped messages of one type always
+   succeeds with a well-shaped message of that type, and everything the parser returns is well-shaped; so a
+   later occurrence of an embedded message can always be merged into the earlier one. *)
 From Coq Require Import ZArith List Bool.
-From PBC Require Import Base.CInt Impl.Desc Impl.Mem Impl.Enc Impl.Unpack Proofs.Merge.
+From PBC Require Import Base.CInt Impl.Desc Impl.Mem Impl.Enc Impl.Unpack Impl.Canon Proofs.Merge Proofs.Shape Proofs.MergeSafe Proofs.UnpackSafe.
+From PBC Require Proofs.LeafSafe.
 Import ListNotations.
 Local Open Scope Z_scope.
 
@@ -85,3 +87,24 @@ Print Assumptions C10_oneof_later_sets_again.
 Theorem C10_unknown_of_both_kept : forall E e l m, merge_messages E e l = Ok m -> m_unk m = m_unk e ++ m_unk l.
 Proof. exact merge_keeps_unknown. Qed.
 Print Assumptions C10_unknown_of_both_kept.
+
+(* merging never fails on what the parser produces *)
+Theorem C10_merge_total_on_well_shaped : forall E, env_ok E = true -> forall e l,
+  shape_msg E e = true -> shape_msg E l = true -> m_desc e = m_desc l ->
+  exists m, merge_messages E e l = Ok m /\ shape_msg E m = true /\ m_desc m = m_desc l.
+Proof. exact merge_shape. Qed.
+Print Assumptions C10_merge_total_on_well_shaped.
+
+Theorem C10_merge_total_on_parser_results : forall E d a b ma mb, env_ok E = true ->
+  LeafSafe.bytes a -> LeafSafe.bytes b -> Mem.zlen a < 2147483648 -> Mem.zlen b < 2147483648 -> (d < length E)%nat ->
+  unpack_top E d a = Ok ma -> unpack_top E d b = Ok mb ->
+  exists m, merge_messages E ma mb = Ok m /\ shape_msg E m = true /\ m_desc m = d.
+Proof.
+  intros E d a b ma mb EO Ba Bb La Lb Hd Ha Hb.
+  destruct (unpack_top_total E EO d a Ba La Hd) as [Hf|(m1 & H1 & S1 & D1)]; [congruence|].
+  destruct (unpack_top_total E EO d b Bb Lb Hd) as [Hf|(m2 & H2 & S2 & D2)]; [congruence|].
+  assert (m1 = ma) by congruence. assert (m2 = mb) by congruence. subst m1 m2.
+  destruct (merge_shape E EO ma mb S1 S2 ltac:(congruence)) as (m & Hm & Sm & Dm).
+  exists m. repeat split; [exact Hm | exact Sm | congruence].
+Qed.
+Print Assumptions C10_merge_total_on_parser_results.
